@@ -574,9 +574,60 @@ func ruleC12R2(c *Ctx) {
 
 // transient-string taint: does v derive from a transient source without passing a deep copy?
 func transientTaint(v ssa.Value) (bool, string) {
+	return taintWalk(v, taintCfg{
+		sanitizer: func(name string) bool {
+			switch name {
+			case "util.DeepCopyString", "util.DeepCopyStrings", "util.DeepCopyStringFromBytes", "strings.Clone", "fmt.Sprintf", "fmt.Sprint", "strings.Repeat":
+				return true // always a new string
+			}
+			return false
+		},
+		convertCopies: true,
+	})
+}
+
+type taintCfg struct {
+	sanitizer     func(name string) bool // call results that are clean whatever the arguments
+	convertCopies bool                   // string <-> []byte conversions make a copy (true for aliasing, irrelevant for content)
+}
+
+// taintWalk: does v derive from bytes of a log record (FieldSetExtractor.Extract, LogFieldLocator.Get, StringFromBytes,
+// LogRecord.Fields, parameters named temp*) without passing a sanitizer? Elements stored into a slice taint the slice;
+// string functions that may return their argument (strings.ToValidUTF8, Trim*, Join of one element, ToLower, Replace …)
+// and module functions that return a parameter propagate.
+func taintWalk(v ssa.Value, cfg taintCfg) (bool, string) {
 	seen := map[ssa.Value]bool{}
 	src := ""
 	var walk func(v ssa.Value, d int) bool
+	elemStores := func(x ssa.Value, d int) bool {
+		if x.Referrers() == nil {
+			return false
+		}
+		for _, ref := range *x.Referrers() {
+			switch r := ref.(type) {
+			case *ssa.IndexAddr:
+				for _, r2 := range *r.Referrers() {
+					if st, ok := r2.(*ssa.Store); ok && st.Addr == ssa.Value(r) && walk(st.Val, d+1) {
+						return true
+					}
+				}
+			case *ssa.Slice:
+				// a re-slice shares the elements
+				if r.X == x {
+					for _, r2 := range *r.Referrers() {
+						if ia, ok := r2.(*ssa.IndexAddr); ok {
+							for _, r3 := range *ia.Referrers() {
+								if st, ok := r3.(*ssa.Store); ok && st.Addr == ssa.Value(ia) && walk(st.Val, d+1) {
+									return true
+								}
+							}
+						}
+					}
+				}
+			}
+		}
+		return false
+	}
 	walk = func(v ssa.Value, d int) bool {
 		if v == nil || seen[v] || d > 40 {
 			return false
@@ -584,26 +635,51 @@ func transientTaint(v ssa.Value) (bool, string) {
 		seen[v] = true
 		switch x := v.(type) {
 		case *ssa.Call:
-			if f := x.Common().StaticCallee(); f != nil {
-				n := anchorName(f)
-				switch n {
-				case "util.DeepCopyString", "util.DeepCopyStrings", "util.DeepCopyStringFromBytes":
-					return false // sanitizer
-				case "base.(*FieldSetExtractor).Extract", "util.StringFromBytes", "base.(LogFieldLocator).Get":
-					src = n
-					return true
+			if bi, ok := x.Common().Value.(*ssa.Builtin); ok {
+				if bi.Name() == "append" {
+					return walk(x.Common().Args[0], d+1) || walk(x.Common().Args[1], d+1)
 				}
-				if extName(f) == "strings.Join" || extName(f) == "fmt.Sprintf" || extName(f) == "strings.Clone" {
-					return false // builds a new string
-				}
+				return false
 			}
-			if bi, ok := x.Common().Value.(*ssa.Builtin); ok && bi.Name() == "append" {
-				return walk(x.Common().Args[0], d+1) || walk(x.Common().Args[1], d+1)
+			f := x.Common().StaticCallee()
+			if f == nil {
+				return false
+			}
+			n := extName(f)
+			if strings.HasPrefix(fnPkgPath(f), modPath) {
+				n = anchorName(f)
+			}
+			if cfg.sanitizer != nil && cfg.sanitizer(n) {
+				return false
+			}
+			switch n {
+			case "base.(*FieldSetExtractor).Extract", "util.StringFromBytes", "base.(LogFieldLocator).Get":
+				src = n
+				return true
+			}
+			args := x.Common().Args
+			if strings.HasPrefix(n, "strings.") || strings.HasPrefix(n, "bytes.") || strings.HasPrefix(n, "golang.org/x/exp/slices.") || strings.HasPrefix(n, "slices.") {
+				// may return (part of) an argument: Trim*, ToValidUTF8, ToLower, Replace, Join of one element, Clone of a slice …
+				for _, a := range args {
+					if walk(a, d+1) {
+						return true
+					}
+				}
+				return false
+			}
+			if strings.HasPrefix(fnPkgPath(f), modPath) && f.Blocks != nil && d < 30 {
+				// a module function: tainted if a tainted argument may flow to its result
+				for i, prm := range f.Params {
+					if i < len(args) && returnsParam(f, prm, cfg, 0) && walk(args[i], d+1) {
+						return true
+					}
+				}
 			}
 			return false
 		case *ssa.Convert:
-			// string([]byte) and []byte(string) copy
-			return false
+			if cfg.convertCopies {
+				return false // string([]byte) and []byte(string) copy
+			}
 		case *ssa.BinOp:
 			if x.Op == token.ADD {
 				return false // concatenation allocates
@@ -614,24 +690,27 @@ func transientTaint(v ssa.Value) (bool, string) {
 				return true
 			}
 			return false
+		case *ssa.MakeSlice:
+			return elemStores(x, d)
+		case *ssa.UnOp:
+			if fa, ok := strip(x.X).(*ssa.FieldAddr); ok && fieldName(fa.X.Type(), fa.Field) == "base.LogRecord.Fields" {
+				src = "LogRecord.Fields"
+				return true
+			}
 		case *ssa.Alloc:
 			for _, ref := range *x.Referrers() {
 				if st, ok := ref.(*ssa.Store); ok && st.Addr == x && walk(st.Val, d+1) {
 					return true
 				}
-				if ia, ok := ref.(*ssa.IndexAddr); ok {
-					for _, r2 := range *ia.Referrers() {
-						if st, ok := r2.(*ssa.Store); ok && st.Addr == ia && walk(st.Val, d+1) {
-							return true
-						}
-					}
-				}
 			}
-			return false
+			return elemStores(x, d)
 		}
 		in, ok := v.(ssa.Instruction)
 		if !ok {
 			return false
+		}
+		if elemStores(v, d) {
+			return true
 		}
 		var ops []*ssa.Value
 		for _, op := range in.Operands(ops) {
@@ -642,6 +721,84 @@ func transientTaint(v ssa.Value) (bool, string) {
 		return false
 	}
 	return walk(v, 0), src
+}
+
+// returnsParam: may (part of) parameter prm flow to a result of f ?
+func returnsParam(f *ssa.Function, prm *ssa.Parameter, cfg taintCfg, depth int) bool {
+	if depth > 3 || !(isSeqType(prm.Type()) || isStringSlice(prm.Type())) {
+		return false
+	}
+	found := false
+	eachInstr(f, func(in ssa.Instruction) {
+		r, ok := in.(*ssa.Return)
+		if !ok || found {
+			return
+		}
+		for _, res := range r.Results {
+			seen := map[ssa.Value]bool{}
+			var w func(v ssa.Value, d int) bool
+			w = func(v ssa.Value, d int) bool {
+				if v == nil || seen[v] || d > 25 {
+					return false
+				}
+				seen[v] = true
+				if v == ssa.Value(prm) {
+					return true
+				}
+				switch x := v.(type) {
+				case *ssa.Call:
+					if bi, ok := x.Common().Value.(*ssa.Builtin); ok && bi.Name() != "append" {
+						return false
+					}
+					if g := x.Common().StaticCallee(); g != nil {
+						n := extName(g)
+						if strings.HasPrefix(fnPkgPath(g), modPath) {
+							n = anchorName(g)
+						}
+						if cfg.sanitizer != nil && cfg.sanitizer(n) {
+							return false
+						}
+					}
+				case *ssa.Convert:
+					if cfg.convertCopies {
+						return false
+					}
+				case *ssa.BinOp:
+					return false
+				case *ssa.MakeSlice, *ssa.Alloc:
+					// elements stored
+					if v.Referrers() != nil {
+						for _, ref := range *v.Referrers() {
+							if ia, ok := ref.(*ssa.IndexAddr); ok {
+								for _, r2 := range *ia.Referrers() {
+									if st, ok := r2.(*ssa.Store); ok && w(st.Val, d+1) {
+										return true
+									}
+								}
+							}
+							if st, ok := ref.(*ssa.Store); ok && st.Addr == v && w(st.Val, d+1) {
+								return true
+							}
+						}
+					}
+					return false
+				}
+				if i2, ok := v.(ssa.Instruction); ok {
+					var ops []*ssa.Value
+					for _, op := range i2.Operands(ops) {
+						if op != nil && *op != nil && w(*op, d+1) {
+							return true
+						}
+					}
+				}
+				return false
+			}
+			if w(res, 0) {
+				found = true
+			}
+		}
+	})
+	return found
 }
 
 func ruleC12R3(c *Ctx) {
